@@ -23,13 +23,19 @@ func verifC23Coin(b *big.Int) sdk.Coin { return sdk.Coin{Denom: "ulava", Amount:
 const verifC23Month = 30 * 86400
 
 // One stored delegation (amount, credit, timestamps as SetDelegation leaves them), evaluated at an arbitrary later time.
-func VerifC23MonthlyCredit() {
+func VerifC23MonthlyCredit() { verifC23MonthlyCredit(100) }
+
+// the same with amounts below 2^12: the nonlinear queries are then within reach of the solver's bit-level
+// reasoning, so a wrong normalisation is found as a concrete counterexample rather than left unknown
+func VerifC23MonthlyCreditSmall() { verifC23MonthlyCredit(verif_param("bits", 12)) }
+
+func verifC23MonthlyCredit(bits int) {
 	k := Keeper{stakingKeeper: verifC23Staking{}}
 	now := verif_nondet_in("now", 2, 1<<40)
 	ts := verif_nondet_in("delegation.Timestamp", 0, 1<<40)
 	cts := verif_nondet_in("delegation.CreditTimestamp", 0, 1<<40)
-	amount := verif_nondet_ubig("amount", 100)
-	credit := verif_nondet_ubig("credit", 100)
+	amount := verif_nondet_ubig("amount", bits)
+	credit := verif_nondet_ubig("credit", bits)
 	verif_assume(cts <= ts && ts <= now)
 	d := types.Delegation{Provider: "p", Delegator: "d", Amount: verifC23Coin(amount), Credit: verifC23Coin(credit), Timestamp: ts, CreditTimestamp: cts}
 	ctx := verifC23Ctx(now)
